@@ -105,3 +105,14 @@ Check C12_plain_reads_back_untyped : forall c s y12 flow,
   is_plain_value_safe s y12 flow = true ->
   deserialize_any_scalar c (mkScalar s Plain TAG_None) = RStr s.
 Print Assumptions C12_plain_reads_back_untyped.
+
+Theorem C12_plain_key_reads_back_untyped : forall c s y12,
+  (y12 = true -> strict_booleans c = true) ->
+  is_plain_safe s && is_plain_value_safe s y12 true && negb (has_trailing_ws s) = true ->
+  deserialize_any_scalar c (mkScalar s Plain TAG_None) = RStr s.
+Proof. exact plain_key_reads_back_untyped. Qed.
+Check C12_plain_key_reads_back_untyped : forall c s y12,
+  (y12 = true -> strict_booleans c = true) ->
+  is_plain_safe s && is_plain_value_safe s y12 true && negb (has_trailing_ws s) = true ->
+  deserialize_any_scalar c (mkScalar s Plain TAG_None) = RStr s.
+Print Assumptions C12_plain_key_reads_back_untyped.
